@@ -391,6 +391,19 @@ var c03Fixtures = []fixtureCase{
 	{"gomod", "language/golang/gomod/testdata/replace-local.mod", "", []layouts.Record{
 		rec("golang.org/x/net", "v1.2.3", "replace_name", "./fork/net"), rec("github.com/BurntSushi/toml", "v1.0.0"),
 	}},
+	{"gomod", "language/golang/gomod/testdata/replace-not-required.mod", "", []layouts.Record{
+		rec("golang.org/x/net", "v0.5.6"), rec("github.com/BurntSushi/toml", "v1.0.0"),
+		rec("golang.org/x/net", "v1.2.3", "kind", "replace", "replace_name", "example.com/fork/net", "replace_version", "v1.4.5"),
+	}},
+	{"gomod", "language/golang/gomod/testdata/replace-no-version.mod", "", []layouts.Record{
+		rec("golang.org/x/net", "v1.2.3"), rec("golang.org/x/net", "v0.5.6"),
+		rec("golang.org/x/net", "", "kind", "replace", "replace_name", "example.com/fork/net", "replace_version", "v1.4.5"),
+	}},
+	{"gomod", "language/golang/gomod/testdata/replace-different.mod", "", []layouts.Record{
+		rec("golang.org/x/net", "v1.2.3"), rec("golang.org/x/net", "v0.5.6"),
+		rec("golang.org/x/net", "v1.2.3", "kind", "replace", "replace_name", "example.com/fork/foe", "replace_version", "v1.4.5"),
+		rec("golang.org/x/net", "v0.5.6", "kind", "replace", "replace_name", "example.com/fork/foe", "replace_version", "v1.4.2"),
+	}},
 	{"cargo", "language/rust/cargolock/testdata/two-packages.lock", "", []layouts.Record{
 		rec("addr2line", "0.15.2", "deps", "gimli"), rec("syn", "1.0.73", "deps", "proc-macro2,quote,unicode-xid"),
 	}},
@@ -411,6 +424,9 @@ var c03Fixtures = []fixtureCase{
 	}},
 	{"packagelock", "language/javascript/packagelockjson/testdata/scoped-packages.v2.json", "", []layouts.Record{
 		rec("wrappy", "1.0.2"), rec("@babel/code-frame", "7.0.0"),
+	}},
+	{"packagelock", "language/javascript/packagelockjson/testdata/files.v2.json", "", []layouts.Record{
+		rec("etag", "1.8.0", "dir", "deps/etag", "dev", "1"), rec("abbrev", "1.0.9", "dev", "1"), rec("abbrev", "2.3.4", "parent", "0", "dev", "1"),
 	}},
 	{"composer", "language/php/composerlock/testdata/two-packages-alt.json", "", []layouts.Record{rec("sentry/sdk", "2.0.4"), rec("theseer/tokenizer", "1.1.3")}},
 	{"composer", "language/php/composerlock/testdata/one-package-dev.json", "", []layouts.Record{rec("sentry/sdk", "2.0.4", "dev", "1")}},
